@@ -85,6 +85,13 @@ CLAIMS = {
         "10 log10(S_val[k,k,:]/max S_val[0,0,:]); ValueError iff too many curves are requested. The classes' plot methods pass the result tables and run parameters (call signatures checked).",
    note="Proof modulo matplotlib (A10); step == 1 scope for the order axis; reals for floats.",
    design="6 (C20)", technique="contract-based deductive verification: effect-recorder contracts on matplotlib Axes (pyvc AST->VC, z3 incl. integer division), native replay reading back Agg artists"),
+ "C06": dict(
+   text="Deductive proof from the real source: fdd.SD_svalsvec (loop invariant over the lines) stores, for every line, sqrt(sigma) on the diagonal and conj(U^T) of the SVD of the spectral "
+        "matrix at that line (values non-negative, non-increasing); fdd.FDD_mpe (loop invariant over the selected frequencies, staged proof steps) returns for each selected frequency the "
+        "grid line inside [f-DF, f+DF] at which sigma1/sigma2 is largest (first such line) and the stored first singular vector at that line divided by its largest-magnitude component, "
+        "for symbolic channel counts, grid length and spacing, bands and spectra; the band is non-empty under the property's preconditions; FDD.mpe hands the stored tables to it.",
+   note="Proof modulo numpy.linalg.svd (uninterpreted kernel with its contract); reals for floats; uniform ascending grid, sigma2 > 0.",
+   design="6 (C06)", technique="contract-based deductive verification: loop invariants + hand-instantiated reduction contracts (pyvc AST->VC, z3), native replay on random spectra"),
 }
 NOT_APPLICABLE = {
  "C07": "accuracy tolerance (2.5 % / 15 %) of a floating-point FFT/peak-picking/regression pipeline: no contract over exact reals can state or discharge it (DESIGN.md section 8); its scale-invariance clause is covered under C08",
